@@ -308,7 +308,7 @@ def exact_correspondence(ctx, built):
                 ctx.add_broken("broken-correspondence", "seg_internal model vs BHJM_cylinder_segment_internal",
                                json.dumps({"case": kept[bi][0], "impl": kept[bi][1]}))
     # (b)+(c) meshes
-    mesh_cases = [gen_mesh_case(rng) for _ in range(ctx.n(250, 2000))]
+    mesh_cases = [gen_mesh_case(rng) for _ in range(ctx.n(250, 1000))]
     mitems, titems, mk = [], [], []
     for c in mesh_cases:
         with warnings.catch_warnings():
